@@ -7,9 +7,9 @@ import (
 	"fmt"
 	"hash/fnv"
 	"os"
-	"time"
 	"strconv"
 	"strings"
+	"time"
 
 	"verif/vlib"
 
@@ -64,8 +64,8 @@ type Explorer struct {
 	// enabled one) counts against the bound, not only preemptions. Used for whole-interpreter drivers
 	// whose polling loops offer a free alternative at almost every point.
 	DevBounded bool
-	visited map[uint64]bool
-	Pruned  int64
+	visited    map[uint64]bool
+	Pruned     int64
 	// After is called after every recorded execution with its schedule (C32 reads the race log there).
 	After func(schedule string)
 }
@@ -112,6 +112,10 @@ func ParseWitness(w string) (string, []dev, error) {
 // RunOnce executes the scenario under the given deviations (default choice 0 everywhere else).
 func RunOnce(sc *Scenario, devs []dev) (*vsched.Execution, Outcome, string) {
 	inst := sc.New()
+	if RaceBuild {
+		inst.Dump = nil
+		inst.Monitor = nil
+	}
 	var vd []vsched.Dev
 	policy := 0
 	for _, d := range devs {
